@@ -161,6 +161,18 @@ def chain_case(run, h, batch, rng, key, start, mkind):
         ms2 = list(ms)
         ms2[j] = (ms[j] + rng.choice([1, Q - 1, rand_nz(rng)])) % Q
         verify_q("coord:%d" % j, key["pk"], key["pk_hex"], ms2, must_reject=final_valid)
+    # several coordinates at once: two coordinates exchanged / value moved between two coordinates with the sum preserved
+    # (rejected whenever <y, m - m'> != 0, which holds for independently drawn exponents; the model decides the expectation)
+    if n >= 2:
+        i, j = rng.sample(coords, 2) if len(coords) >= 2 else (0, 1)
+        dlt = rng.choice([1, rand_nz(rng)])
+        moved = list(ms)
+        moved[i], moved[j] = (ms[i] + dlt) % Q, (ms[j] - dlt) % Q
+        swapped = list(ms)
+        swapped[i], swapped[j] = ms[j], ms[i]
+        for nm, ms2 in (("move:%d>%d" % (j, i), moved), ("swap:%d,%d" % (i, j), swapped)):
+            if ms2 != ms:
+                verify_q(nm, key["pk"], key["pk_hex"], ms2, must_reject=final_valid)
     # key element changes
     pk = key["pk"]
     pk2 = dict(pk, x2=(pk["x2"] + rand_nz(rng)) % Q)
